@@ -9,7 +9,7 @@
    than its entry announces; a surplus ends in the no-progress or the checksum error),
    the no-output-progress counter, the early return for an offset at / beyond the end and the length clamp (fix bb8f456),
    the continuation of the loop when the read stops exactly at the end of a frame (fix 7f35186), the state after a
-   decoder error (fix b978b70).
+   decoder error (fix b978b70) and after a failed src.read (fix 9b1486b).
 
    What is abstract: libzstd's streaming decoder and the input side (zs->in, src.read of the size hints).
    A frame is a function [content i] = the bytes the decoder regenerates from the frame entry i points at;
@@ -156,6 +156,15 @@ Section Reader.
      and resets the decoder instead of continuing a stream in an error state.  (Decoder errors are outside the oracle - a
      frame here is its content; this is the state transformation of that return path.) *)
   Definition decoder_failed (st : rstate) : rstate :=
+    mkR 4294967295 (r_doff st) (d_frame st) (d_prod st) (d_fin st) (r_acc st) (r_trace st).
+
+  (* the src.read of the decoder's size hint failed inside the loop (fix 9b1486b): curFrame = (U32)-1 before seekableIO is
+     returned, because the source's read head is unknown after a failed read (fread: file position indeterminate; a callback
+     may have transferred part of the bytes).  The input side is outside this model - a read failure is not an oracle
+     element and the model has no read head, so the defect itself (the next call continuing from a moved read head) cannot be
+     exhibited here; this is the state transformation of that return path.  [st] is the state after the decoder call that
+     emptied zs->in (decompressedOffset already advanced). *)
+  Definition read_failed (st : rstate) : rstate :=
     mkR 4294967295 (r_doff st) (d_frame st) (d_prod st) (d_fin st) (r_acc st) (r_trace st).
 
   (* ZSTD_seekable_decompress(zs, dst, len0, offset) with dst's previous content [dst0] *)
